@@ -23,6 +23,7 @@ def base_model(variant=0):
     wn.add_curve("pc3", "HEAD", [(0.0, 40.0), (0.05, 30.0), (0.1, 10.0)])
     wn.add_curve("vc", "VOLUME", [(0.0, 0.0), (2.0, 60.0), (6.0, 300.0)])
     wn.add_curve("hl", "HEADLOSS", [(0.0, 0.0), (0.05, 2.0), (0.1, 9.0)])
+    wn.add_curve("spare_unsorted", None, [(3.0, 1.0), (1.0, 2.0), (2.0, 0.5)])      # curves keep the order of their points
     wn.add_reservoir("R1", base_head=50.0, head_pattern="pat2", coordinates=(0.0, 0.0))
     wn.add_tank("T1", elevation=30.0, init_level=3.0, min_level=1.0, max_level=6.0, diameter=12.0, coordinates=(50.0, 40.0))
     wn.add_tank("T2", elevation=28.0, init_level=2.0, min_level=0.5, max_level=5.5, diameter=10.0, vol_curve="vc", coordinates=(60.0, 45.0))
@@ -31,6 +32,7 @@ def base_model(variant=0):
                         demand_category=("dom" if i == 3 else None))
     wn.get_node("J2").add_demand(0.0005, "pat2", "ind")
     wn.get_node("J2").add_demand(0.0002, None, "com")
+    wn.get_node("J3").add_demand(0.0003, None, None)          # a later demand without a category after a first one with a category
     wn.get_node("J4").tag = "zoneA"
     wn.get_node("J5").emitter_coefficient = 0.002
     wn.get_node("J6").initial_quality = 0.4
@@ -116,6 +118,41 @@ def add_controls(wn, which="all"):
     return wn
 
 
+def add_rule_units(wn):
+    """rules whose conditions and THEN / ELSE actions carry a value of every convertible kind: settings of every valve type, demand,
+    head, level, pressure, flow; clock times in the twelve o'clock hours and at midnight; sim times with seconds"""
+    t1, j3, p2, p5 = wn.get_node("T1"), wn.get_node("J3"), wn.get_link("P2"), wn.get_link("P5")
+    valves = [wn.get_link(v) for v in ("V1", "V2", "V3", "V4", "V5")]      # PRV PSV FCV TCV PBV
+    vals = {"PRV": (21.0, 23.5), "PSV": (14.0, 16.5), "FCV": (0.012, 0.017), "TCV": (2.5, 4.5), "PBV": (18.0, 5.5)}
+    for v in valves:
+        a, b = vals[v.valve_type]
+        wn.add_control("r_set_%s" % v.valve_type, Rule(ValueCondition(t1, "level", ">", 4.0 + 0.1 * len(v.name)),
+                                                       [ControlAction(v, "setting", a)], [ControlAction(v, "setting", b)], name="r_set_%s" % v.valve_type, priority=2))
+        wn.add_control("r_if_%s" % v.valve_type, Rule(ValueCondition(v, "setting", "<", a), [ControlAction(p5, "status", LinkStatus.Closed)], name="r_if_%s" % v.valve_type))
+    conds = [ValueCondition(j3, "demand", ">", 0.004), ValueCondition(j3, "head", "<", 41.5), ValueCondition(t1, "level", ">=", 3.25),
+             ValueCondition(j3, "pressure", "<=", 26.5), ValueCondition(p2, "flow", ">", 0.0123),
+             TimeOfDayCondition(wn, "=", 1800), TimeOfDayCondition(wn, ">=", 12 * 3600 + 900), TimeOfDayCondition(wn, "<", 0),
+             TimeOfDayCondition(wn, ">", 13 * 3600 + 30), SimTimeCondition(wn, ">=", 5 * 3600 + 30 * 60 + 15), SimTimeCondition(wn, "=", 45)]
+    for i, c in enumerate(conds):
+        wn.add_control("r_cond_%d" % i, Rule(c, [ControlAction(p2, "status", LinkStatus.Open)], [ControlAction(p2, "status", LinkStatus.Closed)], name="r_cond_%d" % i))
+    return wn
+
+
+def reactions_model():
+    """reaction orders other than one with per-pipe and per-tank coefficients (their conversion depends on the order)"""
+    wn = base_model(0)
+    wn.options.reaction.bulk_order = 2.0
+    wn.options.reaction.wall_order = 0.0
+    wn.options.reaction.tank_order = 2.0
+    wn.options.reaction.bulk_coeff = -0.25
+    wn.options.reaction.wall_coeff = -3e-6
+    wn.get_link("P5").bulk_coeff = -0.3
+    wn.get_link("P5").wall_coeff = -2e-6
+    wn.get_link("P2").wall_coeff = -1e-6
+    wn.get_node("T1").bulk_coeff = -0.2
+    return wn
+
+
 def rule_tree_models():
     """condition trees over AND / OR up to depth 2 on three atoms (pre-survey finding 21)"""
     out = []
@@ -157,7 +194,8 @@ def example_networks(tier):
 
 def all_models(tier):
     out = [("feature:plain", base_model(0)), ("feature:pda", base_model(1)), ("feature:timed_leaks", base_model(2)), ("feature:simple_controls", add_controls(base_model(0), "simple")),
-           ("feature:rules", add_controls(base_model(0), "rules")), ("feature:all_controls", add_controls(base_model(1), "all"))]
+           ("feature:rules", add_controls(base_model(0), "rules")), ("feature:all_controls", add_controls(base_model(1), "all")),
+           ("feature:rule_units", add_rule_units(base_model(0))), ("feature:reactions", reactions_model())]
     for rel, path in example_networks(tier):
         with warnings.catch_warnings():
             warnings.simplefilter("ignore")
